@@ -6,6 +6,7 @@ import (
 	"go/types"
 	"sort"
 	"strings"
+	"sync"
 
 	"gobmc/smt"
 
@@ -162,12 +163,12 @@ type Violation struct {
 
 // thrAcc summarises the accesses of one thread to one cell.
 type thrAcc struct {
-	write    bool
-	maxSpawn int    // largest number of children the thread had spawned at an access
-	spawned  uint64 // union over the accesses of the children already spawned at the access
-	spawnedW uint64 // the same over the writes only
+	write     bool
+	maxSpawn  int    // largest number of children the thread had spawned at an access
+	spawned   uint64 // union over the accesses of the children already spawned at the access
+	spawnedW  uint64 // the same over the writes only
 	maxSpawnW int
-	overflow bool   // a child with id >= 64 was spawned before an access
+	overflow  bool // a child with id >= 64 was spawned before an access
 }
 
 type accInfo struct {
@@ -255,6 +256,7 @@ type M struct {
 	RaceCheck        bool
 	curStep          int
 	Pruner           *Pruner
+	Pruners          []*Pruner // additional sessions: new configurations of a step are checked in parallel
 	seenCfg          map[string]bool
 	AppendCap        int
 	timers           []Addr
@@ -267,27 +269,27 @@ type M struct {
 	sentinels        map[string]*VIface
 	ctxType, errType types.Type
 
-	Stats    struct{ Firings, Cfgs, MaxLive int }
+	Stats     struct{ Firings, Cfgs, MaxLive int }
 	chanElem  map[Addr]types.Type
 	chanMulti map[Addr]bool
-	advanced bool // vrt.Advance has been executed on some path: timers may be expired from now on
-	EnvLog   []EnvRec
-	EnvOwner map[Addr][2]int // context object -> (thread, occurrence) of the vrt.CancelAnytime call that armed it
+	advanced  bool // vrt.Advance has been executed on some path: timers may be expired from now on
+	EnvLog    []EnvRec
+	EnvOwner  map[Addr][2]int // context object -> (thread, occurrence) of the vrt.CancelAnytime call that armed it
 	// MaxPreempt >= 0 bounds the number of preemptions (switching away from a thread that could
 	// still move) in the schedules considered; -1 = unbounded
 	MaxPreempt int
 	preCnt     *smt.Term // running preemption count (8 bit)
 	prevCk     *smt.Term
-	Single   bool            // the previous round saw one thread only: lock operations are invisible
-	MaxTerms int             // cap on the number of terms (0 = none)
-	funcFile map[string]bool // source files of those functions
-	funcs    map[string]bool // functions entered by the interpreter in the final round
-	stubs    map[string]bool // environment models exercised
-	cfgSeen  map[string]bool // distinct (thread, control configuration) keys encoded
-	FireLog  []FireRec
-	FinalLog []FireRec // where each unfinished thread is parked after the last step
-	Trace    bool
-	Verbose  bool
+	Single     bool            // the previous round saw one thread only: lock operations are invisible
+	MaxTerms   int             // cap on the number of terms (0 = none)
+	funcFile   map[string]bool // source files of those functions
+	funcs      map[string]bool // functions entered by the interpreter in the final round
+	stubs      map[string]bool // environment models exercised
+	cfgSeen    map[string]bool // distinct (thread, control configuration) keys encoded
+	FireLog    []FireRec
+	FinalLog   []FireRec // where each unfinished thread is parked after the last step
+	Trace      bool
+	Verbose    bool
 }
 
 func NewM(prog *ssa.Program, U, K int) *M {
@@ -810,16 +812,40 @@ func (m *M) step(k int) (err error) {
 	// solver-assisted pruning: a configuration seen for the first time is kept only if its guard
 	// is satisfiable under the assumptions so far (unsat => dropped; anything else => kept)
 	if m.Pruner != nil {
+		type cand struct {
+			t   int
+			key string
+			g   *smt.Term
+			ok  bool
+		}
+		var cands []*cand
 		for t := range next {
 			for key, cfg := range next[t] {
-				if m.seenCfg[key] {
-					continue
+				if !m.seenCfg[key] {
+					cands = append(cands, &cand{t: t, key: key, g: cfg.G})
 				}
-				if m.feasible(cfg.G) {
-					m.seenCfg[key] = true
-				} else {
-					delete(next[t], key)
+			}
+		}
+		sessions := append([]*Pruner{m.Pruner}, m.Pruners...)
+		if len(cands) < 2*len(sessions) {
+			sessions = sessions[:1]
+		}
+		var wg sync.WaitGroup
+		for si, pr := range sessions {
+			wg.Add(1)
+			go func(si int, pr *Pruner) {
+				defer wg.Done()
+				for i := si; i < len(cands); i += len(sessions) {
+					cands[i].ok = m.feasibleOn(pr, cands[i].g)
 				}
+			}(si, pr)
+		}
+		wg.Wait()
+		for _, c := range cands {
+			if c.ok {
+				m.seenCfg[c.key] = true
+			} else {
+				delete(next[c.t], c.key)
 			}
 		}
 	}
